@@ -8,6 +8,7 @@ import (
 	"fmt"
 	"math/big"
 	"math/rand/v2"
+	"runtime/debug"
 	"sort"
 	"strings"
 	"testing"
@@ -204,7 +205,7 @@ func RunScenario(t *testing.T, sc *Scenario) *Result {
 			defer func() {
 				simEnd = time.Now()
 				if r := recover(); r != nil {
-					rc.Fail("harness-panic", "driver panicked: %v", r)
+					rc.Fail("harness-panic", "driver panicked: %v\n%s", r, firstFrames(string(debug.Stack()), 14))
 				}
 			}()
 			drv(rc)
@@ -276,6 +277,20 @@ func RunScenario(t *testing.T, sc *Scenario) *Result {
 // ---- helpers for scenario generation ----------------------------------------------------------
 
 func pickStr(r *rand.Rand, xs ...string) string { return xs[r.IntN(len(xs))] }
+
+func firstFrames(stack string, n int) string {
+	var out []string
+	for _, l := range strings.Split(stack, "\n") {
+		l = strings.TrimSpace(l)
+		if strings.HasPrefix(l, "/verif/") || strings.HasPrefix(l, "/repo/") {
+			out = append(out, strings.Fields(l)[0])
+			if len(out) >= n {
+				break
+			}
+		}
+	}
+	return strings.Join(out, " < ")
+}
 
 // GenSched draws a benign (no loss) schedule configuration.
 func GenSched(r *rand.Rand, nodes int, allowPreStart bool, allowFlip bool) SchedConfig {
